@@ -17,7 +17,7 @@ def family_bdd(rng, count):
     # one fixed chart: a macro step that sends the same event twice with different payloads
     w = gc.new_chart(['compound', 'basic', 'basic', 'final'], [0, 1, 1, 1], [2, 0, 0, 0], [0, 0, 0, 0])
     w['trans'] = [gc.mk_trans(2, 3, 1, 0, 'none', 0, gc.desc(incx=1, sends=[(3, 0, 0), (3, 0, 7)])),
-                  gc.mk_trans(3, 2, 1, 0, 'none', 0, gc.desc(sends=[(3, 0, 7), (3, 0, 0)])),
+                  gc.mk_trans(3, 2, 1, 0, 'none', 0, gc.desc(sends=[(3, 0, 7), (3, 0, 0), (3, 0, 8)])),
                   gc.mk_trans(3, 4, 2, 0, 'xlt', 2, gc.desc()),
                   gc.mk_trans(1, 0, 3, 0, 'none', 0, gc.desc(incx=1))]
     w['events'] = [1, 2, 3]
@@ -34,7 +34,7 @@ def family_bdd(rng, count):
             ev = rng.choice([1, 2])
             gk, ga = ('xlt', rng.choice([1, 2, 3])) if rng.random() < 0.3 else ('none', 0)
             r_ = rng.random()
-            snd = [(3, 0, rng.choice([0, 7]))] if r_ < 0.3 else \
+            snd = [(3, 0, rng.choice([0, 7, 8]))] if r_ < 0.3 else \
                 ([(3, 0, 0), (3, 0, 7)] if r_ < 0.45 else ([(3, 0, 7), (3, 0, 0)] if r_ < 0.55 else []))
             act = gc.desc(incx=rng.choice([0, 1]), sends=snd)
             t = gc.mk_trans(s, tg, ev, 0, gk, ga, act)
@@ -68,7 +68,7 @@ def build_plain(c):
             lines.append('x = x + %d' % d['incx'])
             lines.append('w = w + [0] * %d' % d['incx'])
         for s in d['sends']:
-            lines.append("send('e%d'%s)" % (s['ev'], ', v=%d' % s['par'] if s['par'] else ''))
+            lines.append("send('e%d'%s)" % (s['ev'], {0: '', 7: ', v=7', 8: ', v=7, u=1'}[s['par']]))
         return '\n'.join(lines) or None
     sc = Statechart('bdd', preamble='x = 0\nw = []')
     pending, added = list(range(1, c['n'] + 1)), set()
@@ -98,10 +98,21 @@ def build_plain(c):
     return sc, names
 
 
+def par_text(b, form):
+    """Event parameters b (0 none, 7: v=7, 8: v=7 and u=1) in the inline form, the table form, or both at once."""
+    tbl = lambda rows: ''.join('\n      | %s | %s |' % r for r in [('parameter', 'value')] + rows)
+    if b == 0:
+        return ''
+    if b == 7:
+        return ' with v=7' if form % 2 == 0 else tbl([('v', '7')])
+    return (' with v=7' + tbl([('u', '1')])) if form % 2 == 0 else tbl([('v', '7'), ('u', '1')])
+
+
 def step_text(st, names):
     k, a, b, n = st['kind'], st['a'], st['b'], st['n']
+    form = a + b + len(names)
     if k == 'send':
-        return 'I send event e%d' % a + (' with v=%d' % b if b else '')
+        return 'I send event e%d' % a + par_text(b, form)
     if k == 'sendl':
         return 'I send event e%d with v=%s' % (a, [0] * b)
     if k in ('w_eq', 'w_neq'):
@@ -119,7 +130,7 @@ def step_text(st, names):
     if k in ('not_entered', 'not_exited', 'not_active'):
         return 'state %s is not %s' % (names[a], k[4:])
     if k == 'fired':
-        return 'event e%d is fired' % a + (' with v=%d' % b if b else '')
+        return 'event e%d is fired' % a + par_text(b, form + 1)
     if k == 'not_fired':
         return 'event e%d is not fired' % a
     if k == 'no_event':
@@ -221,7 +232,7 @@ def main(prop, tier, seed, replay_path=None):
                         if k == 'sendl':
                             h.append(dict(kw=kw, kind='sendl', a=rng.choice(c['events']), b=rng.choice([0, 0, 1]), n=0))
                         elif k == 'send':
-                            h.append(dict(kw=kw, kind='send', a=rng.choice(c['events']), b=rng.choice([0, 7]), n=0))
+                            h.append(dict(kw=kw, kind='send', a=rng.choice(c['events']), b=rng.choice([0, 7, 8]), n=0))
                         elif k == 'wait':
                             h.append(dict(kw=kw, kind='wait', a=rng.choice([1, 2]), b=0, n=0))
                         elif k in ('nothing', 'reproduce'):
@@ -237,7 +248,7 @@ def main(prop, tier, seed, replay_path=None):
                         elif k in ('entered', 'not_entered', 'exited', 'not_exited', 'active', 'not_active'):
                             h.append(dict(kw='then', kind=k, a=rng.randint(1, c['n']), b=0, n=0))
                         elif k == 'fired':
-                            h.append(dict(kw='then', kind=k, a=rng.choice(c['events']), b=rng.choice([0, 7]), n=0))
+                            h.append(dict(kw='then', kind=k, a=rng.choice(c['events']), b=rng.choice([0, 7, 7, 8, 8]), n=0))
                         elif k == 'not_fired':
                             h.append(dict(kw='then', kind=k, a=rng.choice(c['events']), b=0, n=0))
                         elif k in ('var_eq', 'var_neq', 'expr_holds', 'expr_not_holds'):
